@@ -6,12 +6,19 @@
   is a fact about the shipped table, discharged by the table theorem.
 -/
 import Calc.Proofs.UnitAlgebra
+import Calc.Proofs.UnitTableFacts
 
 namespace Calc
 
 set_option linter.unusedSectionVars false
 
 variable {K : Type} [Field K] [CharZero K] [Kernel K] [LawfulKernel K]
+
+/-- the table hypothesis of the theorems below holds for the shipped table -/
+example : BaseFactorsOne K := baseFactorsOne
+
+/-- operator tokens with each tag exist (the position is arbitrary) -/
+example : (⟨.plus, ['+'], 3, 7⟩ : Tok K).tag = .plus := rfl
 
 /-- C06, addition: two measurements of the same kind add to a measurement in the base unit of
     that kind whose size is the sum of the sizes. -/
@@ -99,10 +106,6 @@ theorem C06_neg (hbase : BaseFactorsOne K) (op : Tok K) (hop : op.tag = .minus)
       ∧ size (-(size x u)) (baseUnit u) = -(size x u) := by
   refine ⟨?_, size_baseUnit hbase _ _⟩
   unfold unop; simp only [hop, LawfulKernel.negOne_eq, mul_neg, mul_one]; rfl
-
-/-- the diagnostic every refused binary combination yields -/
-abbrev unsupportedBin (op : Tok K) : Res (Value K) :=
-  .diag ⟨.unsupportedBinaryOperator, op.line, op.col, []⟩
 
 /-- C06, refusal: adding or subtracting measurements of different kinds. -/
 theorem C06_refuse_cross_kind (op : Tok K) (hop : op.tag = .plus ∨ op.tag = .minus)
